@@ -254,7 +254,12 @@ def gen_cases(seed, chunk, n, tier):
         else:
             f, u = env2["f"], env2["u"]
             if not fermi:
-                other = x.fuse(*[tuple(g) for g in groups], mode="concat" if mode == "insert" else "insert")
+                try:
+                    other = x.fuse(*[tuple(g) for g in groups], mode="concat" if mode == "insert" else "insert")
+                except Exception as e:  # noqa
+                    other = None
+                    orc = f"the other fuse strategy raised {type(e).__name__}: {e}"
+            if not fermi and other is not None:
                 if not same_value(f, other):
                     orc = "insert and concat strategies give different results"
                 if orc is None and all(groups):
